@@ -1,4 +1,4 @@
-FIX_COMMITS = ['e97b536', '3c9d141', 'bfe05b2', 'e1b1b5d', 'd643d40', '6312ee2', '6ff83de', '1b75f22', '311676b', '6e8e836', '13f71f3', 'a4c146a', '9d6fb8c', 'cf6701d', '7f9478f', 'd3532a7']
+FIX_COMMITS = ['e97b536', '3c9d141', 'bfe05b2', 'e1b1b5d', 'd643d40', '6312ee2', '6ff83de', '1b75f22', '311676b', '6e8e836', '13f71f3', 'a4c146a', '9d6fb8c', 'cf6701d', '7f9478f', 'd3532a7', '5c3e82c']
 NOT_BUILT = {}
 _T = "bounded exhaustive enumeration of input/configuration spaces executed on the real code, compared case-by-case with a naive reference model"
 CHECKS = {
